@@ -20,7 +20,11 @@ func main() {
 		probe(os.Args[2:])
 		return
 	}
-	f, ok := checks[os.Args[1]]
+	key := os.Args[1]
+	if last := os.Args[len(os.Args)-1]; last == "dup" || last == "vc" {
+		key += ":" + last
+	}
+	f, ok := checks[key]
 	if !ok {
 		ev.Fatal("unknown property %s", os.Args[1])
 	}
